@@ -74,4 +74,29 @@ example : let g : Governor := ⟨800, 2100, 2000⟩
     (g.nextState {state := .request, rpm := 900} {state := .request, rpm := 5000} none) = {rpm := 2100, state := .request} ∧
     (g.nextState {state := .request, rpm := 900} {state := .noRequest} none).state = .stopping := by decide
 
+/-! ### the translator tie -/
+
+/-- TRANSLATION THEOREM: the decision table the translator produces from the source text of `Governor::next_state` on
+this run (`Consts.governorTable`, one row per match arm in source order), read with first-match semantics, computes
+`nextState` for every governor, reported engine, requested engine and command age.  All theorems of this file are
+therefore statements about the function the source defines now.  (A guarded arm, an arm whose value is not a plain
+`Engine { rpm: …, state: … }` built from the recognised operands, or a reordering that changes the decision breaks
+this theorem.) -/
+theorem C07_translation (g : Governor) (sig cmd : Engine) (age : Option Nat) :
+    nextStateT Consts.governorTable g sig cmd age = some (g.nextState sig cmd age) := by
+  obtain ⟨sd, sa, sr, ss⟩ := sig
+  obtain ⟨cd, ca, cr, cs⟩ := cmd
+  cases ss <;> cases cs <;> cases he : g.expired age <;>
+    simp [nextStateT, Consts.governorTable, List.find?, patMatches, EngineState.code, rowResult, engineOf, rpmOf,
+      EngineState.ofCode?, Governor.nextState, he, Consts.engineStateNoRequest, Consts.engineStateStarting,
+      Consts.engineStateStopping, Consts.engineStateRequest]
+
+/-- `Governor::reshape` of the current source is the clamp of the model -/
+theorem C07_reshape_as_modelled : Consts.governorReshapeIsClamp = true := by decide
+
+/-- the range property stated on the translated table directly -/
+theorem C07_range_translated (g : Governor) (h : g.idle ≤ g.max) (sig cmd : Engine) (age : Option Nat) :
+    ∃ e, nextStateT Consts.governorTable g sig cmd age = some e ∧ range g e = true :=
+  ⟨_, C07_translation g sig cmd age, C07_range g h sig cmd age⟩
+
 end Glonax.Thm.C07
